@@ -394,6 +394,7 @@ func keepsFrame(op compiler.Opcode) bool {
     wrap int64
     ghostset sincePoll = ghost(sincePoll) + 1
     assumes covered(instruction.Opcode())
+    assumepre Clone, IsEqual, Display
     requires instrPre(*self, instruction)
     modifies self.Stack, self.CallStack, self.MemoryPointer, self.ExceptionCatchLabels, self.tryStates, elems(self.tryStates), elems(self.Stack), elems(self.Memory), elems(self.CallStack), elems(self.ExceptionCatchLabels), heap(value.Value)
     ensures @interrupt-wellformed result != nil ==> *result != nil
